@@ -103,6 +103,24 @@ k{2}/m        { return 4; }
 .|\n          { }
 %%
 ''',
+ # every construct that adds to the rule length (parse.y: '.', a character class, a character, a character inside a quoted
+ # string; PREVCCL is never returned by scan.l) occurs in the fixed part of a trailing-context rule AND in an earlier rule
+ # of the same file, so that bookkeeping done only on first use (the one-time set-up of the '.' classes) shows
+ 'twice': r'''
+%%
+#.*\n         { return 1; }
+[a-c]x"yz"    { return 2; }
+ab./cd        { return 3; }
+[0-9]+/.;     { return 4; }
+k[a-c]/[d-f]+ { return 5; }
+m[x-z]./n+    { return 6; }
+p+/[x-z]q     { return 7; }
+"uv"w/"st"+   { return 8; }
+r+/"!."       { return 9; }
+g+/..         { return 10; }
+.|\n          { }
+%%
+''',
  'vari': r'''
 %%
 p+/r+         { return 1; }
